@@ -245,10 +245,12 @@ func (set *TemplateSet) fromFileNested(referrer *Template, filename string) (*Te
 		nesting = referrer.nesting + 1
 	}
 	if nesting > maxTemplateNesting {
+		// (the error belongs to the referring template; the position of the
+		// referring tag is filled in by the caller)
 		return nil, &Error{
-			Filename:  filename,
+			Filename:  referrer.name,
 			Sender:    "templateset",
-			OrigError: fmt.Errorf("maximum template nesting depth reached (max is %d); do templates include or extend each other in a circle?", maxTemplateNesting),
+			OrigError: fmt.Errorf("maximum template nesting depth reached while loading '%s' (max is %d); do templates include or extend each other in a circle?", filename, maxTemplateNesting),
 		}
 	}
 
